@@ -142,3 +142,11 @@ Print Assumptions C08_nest_second_run_noop.
 Print Assumptions C08_nest_run_settles.
 Print Assumptions C08_nest_equal_stable.
 Print Assumptions C08_nest_second_run_example.
+
+(* never-compared snapshots (Model/Undecided.v): after a run with update the next run - whatever is approved - keeps the text verbatim *)
+From V Require Model.Undecided Proofs.UndecidedProofs.
+Theorem C08_undecided_idempotent :
+  forall (ct : Nest.ctab) (upd2 : bool) (t : Nest.ntree),
+  NestProofs.verbatim (Undecided.undecided upd2 (NestSettle.to_tree ct (Undecided.undecided true t))) = Some (NestSettle.to_tree ct (Undecided.undecided true t)).
+Proof. exact UndecidedProofs.undecided_idempotent. Qed.
+Print Assumptions C08_undecided_idempotent.
